@@ -205,10 +205,11 @@ func (t *ttrace) Emit(e vh.Ev) int {
 
 // stableAddr returns a free loopback address below the ephemeral port range: the listeners of a trial are closed and
 // re-opened on the same port, which must not be taken meanwhile as the source port of somebody's outgoing connection.
-func stableAddr() string {
+func stableAddr(shard int) string {
 	r := rand.New(rand.NewSource(time.Now().UnixNano() + int64(os.Getpid())*7919))
 	for i := 0; i < 2000; i++ {
-		a := fmt.Sprintf("127.0.0.1:%d", 12000+r.Intn(20000))
+		// ports of different shards fall into different residue classes: two shards never probe the same port
+		a := fmt.Sprintf("127.0.0.1:%d", 10000+32*r.Intn(680)+(shard%32))
 		l, err := net.Listen("tcp", a)
 		if err == nil {
 			l.Close()
@@ -253,9 +254,9 @@ func main() {
 	defer h2stop()
 
 	lis := map[string]*listenerInfo{
-		"http1": {name: "c11h1", addr: stableAddr(), dial: newH1},
-		"bolt":  {name: "c11bolt", addr: stableAddr(), dial: newBolt},
-		"http2": {name: "c11h2", addr: stableAddr(), dial: newH2},
+		"http1": {name: "c11h1", addr: stableAddr(*shard), dial: newH1},
+		"bolt":  {name: "c11bolt", addr: stableAddr(*shard), dial: newBolt},
+		"http2": {name: "c11h2", addr: stableAddr(*shard), dial: newH2},
 	}
 	clusters := e2e.BuildClusters([]e2e.ClusterSpec{{Name: "uh1", Hosts: []string{hup}}, {Name: "ubolt", Hosts: []string{bup}}, {Name: "uh2", Hosts: []string{h2up}}})
 	boltRoutes := []e2e.RouteSpec{{Prefix: "/", Cluster: "ubolt", TimeoutMs: 120000, Extra: func(r *v2.Router) {
